@@ -11,7 +11,7 @@ name=$1; shift
 scratch=""
 if [ "${1:-}" = "--scratch" ]; then scratch=$2; shift 2; fi
 dir=/verif/seeded/$name
-pid=$(python3 -c "import json;print(json.load(open('$dir/meta.json'))['property'])")
+pid=$(python3 -c "import json;m=json.load(open('$dir/meta.json'));print(m.get('check',m['property']))")
 if [ -n "$scratch" ]; then
   cd "$scratch" || exit 2
   git checkout -q -- . && git clean -fdq nemoguardrails && git reset -q --hard "$(git -C /repo rev-parse HEAD)" || exit 2
